@@ -17,6 +17,7 @@ MANIFEST_ENTRY = {
 
 def tasks(tier, seed):
     return [
+        func("bt.core.StrategyBase.transact"),
         func("bt.core.StrategyBase.rebalance"),
         func("bt.algos.Rebalance.__call__"),
         dict(kind="custom", module="props.c04_tasks", fn="setup_clauses"),
